@@ -20,7 +20,7 @@ var routeNames = []string{"body-bytes", "wire-preparse", "body-stream"}
 
 func runRoundTrips(r *mon.Run, tmp string) {
 	n := r.N(2000, 100_000)
-	nBig := r.N(4, 120)
+	nBig := r.N(3, 90)
 	one := func(i int, big bool) {
 		if !r.Want(i) {
 			return
